@@ -63,7 +63,10 @@ pub struct PasetoBuilder<'a, Version, Purpose> {
   version: PhantomData<Version>,
   purpose: PhantomData<Purpose>,
   builder: GenericBuilder<'a, 'a, Version, Purpose>,
+  #[cfg(not(rusty_paseto_verif))]
   top_level_claims: HashSet<String>,
+  #[cfg(rusty_paseto_verif)]
+  top_level_claims: HashSet<String, crate::verif_hooks::SimBuildHasher>,
   dup_top_level_found: (bool, String),
   non_expiring_token: bool,
 }
@@ -74,7 +77,10 @@ impl<'a, Version, Purpose> PasetoBuilder<'a, Version, Purpose> {
       version: PhantomData::<Version>,
       purpose: PhantomData::<Purpose>,
       builder: GenericBuilder::default(),
+      #[cfg(not(rusty_paseto_verif))]
       top_level_claims: HashSet::new(),
+      #[cfg(rusty_paseto_verif)]
+      top_level_claims: HashSet::with_hasher(crate::verif_hooks::SimBuildHasher::new()),
       non_expiring_token: false,
       dup_top_level_found: (false, String::default()),
     }
